@@ -15,8 +15,12 @@
 (* (C) enumerators (M2): the same state space with printing invariants;    *)
 (*     the Go harness replays every printed case through the real code.    *)
 (*                                                                         *)
-(* Characters are TLC strings of length 1; a "string" is a TLC string      *)
-(* (Len, \o, SubSeq work on them).  Rune 0 of the Go code is "".           *)
+(* A character is a TLC string of length 1; a text is a SEQUENCE of          *)
+(* characters (tuples are much cheaper in TLC than string slicing, and      *)
+(* TLC's on-disk state queue damages non-ASCII characters held in state     *)
+(* variables - measured - so inside the model a multi-byte rune is written  *)
+(* as an ASCII stand-in letter that the harness maps to the real rune).     *)
+(* Rune 0 of the Go code is "".                                            *)
 (***************************************************************************)
 EXTENDS Integers, Sequences, FiniteSets, TLC
 
@@ -33,10 +37,12 @@ ASSUME Dev \subseteq DevNames
 ASSUME N \in Nat
 
 \* Alphabets.  The harness writes a wrapper module (C15Run.tla: EXTENDS
-\* SoyRawText, AlphaRun == <<...>>) and the cfg says Alpha <- AlphaRun, so
-\* that invisible characters (NBSP, U+2003, astral runes) are spelled in Go.
-\* These two are the documented defaults of the text and comment families.
-AlphaText    == <<"a", "<", ">", " ", "\t", "\r", "\n", "é">>
+\* SoyRawText, AlphaRun == <<...>>) and the cfg says Alpha <- AlphaRun.
+\* Stand-ins: "e" = U+00E9 (2 bytes), "N" = U+00A0 NBSP, "M" = U+2003 EM
+\* SPACE, "A" = U+1F600 (astral, 4 bytes).  These are the documented
+\* alphabets of the text, unicode-space and comment families.
+AlphaText    == <<"a", "<", ">", " ", "\t", "\r", "\n", "e">>
+AlphaUni     == <<"a", "<", " ", "\n", "\r", "N", "M", "A">>
 AlphaComment == <<"a", "/", "*", " ", "\n">>
 
 SP  == " "
@@ -47,14 +53,17 @@ WS    == {SP, TAB, CR, LF}     \* the ONLY characters the rule calls whitespace
 LB    == {CR, LF}              \* line breaks
 Tight == {"<", ">"}            \* tight joiners
 
-Ch(s, i) == SubSeq(s, i, i)
+Ch(s, i) == s[i]
 IsWs(c)  == c \in WS
 HasLB(s) == \E i \in 1..Len(s) : Ch(s, i) \in LB
 AllWs(s) == \A i \in 1..Len(s) : Ch(s, i) \in WS
 
-RECURSIVE StripWs(_)
-StripWs(s) == IF s = "" THEN ""
-              ELSE (IF IsWs(Ch(s, 1)) THEN "" ELSE Ch(s, 1)) \o StripWs(SubSeq(s, 2, Len(s)))
+NotWs(c)   == c \notin WS
+StripWs(s) == SelectSeq(s, NotWs)
+\* a TLC string as a text (used by the trace module), and back (for messages)
+ToText(str) == [i \in 1..Len(str) |-> SubSeq(str, i, i)]
+RECURSIVE ToStr(_)
+ToStr(s) == IF s = <<>> THEN "" ELSE s[1] \o ToStr(Tail(s))
 
 -----------------------------------------------------------------------------
 (* (A) The declarative rule.                                               *)
@@ -81,17 +90,17 @@ RunOut(s, r, lc, rc) ==
       atStart == r.a = 1
       atEnd   == r.b = Len(s)
   IN IF ~r.ws THEN
-        (IF "rule_tight_eats_char" \in Dev /\ txt \in Tight THEN "" ELSE txt)
+        (IF "rule_tight_eats_char" \in Dev /\ txt \in {<<"<">>, <<">">>} THEN <<>> ELSE txt)
      ELSE IF HasLB(txt) THEN
-        (IF atStart \/ atEnd THEN ""
-         ELSE IF Ch(s, r.a - 1) \in Tight \/ Ch(s, r.b + 1) \in Tight THEN ""
+        (IF atStart \/ atEnd THEN <<>>
+         ELSE IF Ch(s, r.a - 1) \in Tight \/ Ch(s, r.b + 1) \in Tight THEN <<>>
          ELSE IF "rule_linebreak_verbatim" \in Dev THEN txt
-         ELSE SP)
-     ELSE (IF (atStart /\ lc) \/ (atEnd /\ rc) THEN "" ELSE txt)
+         ELSE <<SP>>)
+     ELSE (IF (atStart /\ lc) \/ (atEnd /\ rc) THEN <<>> ELSE txt)
 
 RECURSIVE ConcatRuns(_, _, _, _, _)
 ConcatRuns(s, rs, i, lc, rc) ==
-  IF i > Len(rs) THEN "" ELSE RunOut(s, rs[i], lc, rc) \o ConcatRuns(s, rs, i + 1, lc, rc)
+  IF i > Len(rs) THEN <<>> ELSE RunOut(s, rs[i], lc, rc) \o ConcatRuns(s, rs, i + 1, lc, rc)
 
 Norm(s, lc, rc) == ConcatRuns(s, Runs(s), 1, lc, rc)
 RuleA(s) == Norm(s, FALSE, FALSE)
@@ -99,7 +108,7 @@ RuleA(s) == Norm(s, FALSE, FALSE)
 \* Next to a comment only what every reading supports is demanded: the
 \* whitespace run touching the comment may be dropped (pinned), become one
 \* space, or stay verbatim when it has no line break; everything else exact.
-EdgeOpts(txt) == {"", SP} \cup (IF HasLB(txt) THEN {} ELSE {txt})
+EdgeOpts(txt) == {<<>>, <<SP>>} \cup (IF HasLB(txt) THEN {} ELSE {txt})
 RunOpts(s, r, lc, rc) ==
   IF r.ws /\ ((r.a = 1 /\ lc) \/ (r.b = Len(s) /\ rc))
   THEN EdgeOpts(RunText(s, r))
@@ -107,9 +116,9 @@ RunOpts(s, r, lc, rc) ==
 
 Acceptable(s, lc, rc) ==
   LET rs == Runs(s) n == Len(rs) IN
-  IF n = 0 THEN {""}
+  IF n = 0 THEN {<<>>}
   ELSE IF n = 1 THEN RunOpts(s, rs[1], lc, rc)
-  ELSE LET mid == IF n > 2 THEN ConcatRuns(s, SubSeq(rs, 2, n - 1), 1, FALSE, FALSE) ELSE ""
+  ELSE LET mid == IF n > 2 THEN ConcatRuns(s, SubSeq(rs, 2, n - 1), 1, FALSE, FALSE) ELSE <<>>
        IN {h \o mid \o t : h \in RunOpts(s, rs[1], lc, rc), t \in RunOpts(s, rs[n], lc, rc)}
 
 -----------------------------------------------------------------------------
@@ -162,7 +171,7 @@ SegIsCom(segs, i) == i >= 1 /\ i <= Len(segs) /\ segs[i].k = "com"
 
 RECURSIVE AccSegs(_, _)
 AccSegs(segs, i) ==
-  IF i > Len(segs) THEN {""}
+  IF i > Len(segs) THEN {<<>>}
   ELSE IF segs[i].k = "com" THEN AccSegs(segs, i + 1)
   ELSE {x \o y : x \in Acceptable(segs[i].s, SegIsCom(segs, i - 1), SegIsCom(segs, i + 1)),
                  y \in AccSegs(segs, i + 1)}
@@ -192,13 +201,13 @@ IsEolB(c)   == c \in LB                                                      \* 
 \* the run of pending whitespace, copied from the input as the Go code does
 Pending == SubSeq(inp, Len(inp) - spaces + 1, Len(inp))
 
-Init == /\ inp = ""
+Init == /\ inp = <<>>
         /\ tb \in BOOLEAN
         /\ spaces = (IF tb THEN 1 ELSE 0)
         /\ seenNL = tb
         /\ lastChar = ""
         /\ cbt = ""
-        /\ out = ""
+        /\ out = <<>>
 
 Joiner(c) ==
   IF "joiner_only_before" \in Dev THEN ~TightJ(cbt)
@@ -207,7 +216,7 @@ Joiner(c) ==
 
 Step(c) ==
   /\ Len(inp) < N
-  /\ inp' = inp \o c
+  /\ inp' = Append(inp, c)
   /\ UNCHANGED tb
   /\ IF spaces > 0 /\ IsSpaceB(c) THEN
         spaces' = spaces + 1 /\ UNCHANGED <<seenNL, lastChar, cbt, out>>
@@ -217,16 +226,16 @@ Step(c) ==
         LET flushed ==
               IF spaces = 0 THEN out
               ELSE IF ~seenNL THEN
-                   (IF "collapse_all_ws" \in Dev THEN out \o SP ELSE out \o Pending)
+                   (IF "collapse_all_ws" \in Dev THEN Append(out, SP) ELSE out \o Pending)
               ELSE IF Joiner(c) THEN
-                   (IF "two_spaces" \in Dev THEN out \o SP \o SP ELSE out \o SP)
+                   (IF "two_spaces" \in Dev THEN out \o <<SP, SP>> ELSE Append(out, SP))
               ELSE out
             nl == IF "no_reset_seen_newline" \in Dev THEN (seenNL \/ IsEolB(c)) ELSE IsEolB(c)
         IN IF IsSpaceB(c) \/ IsEolB(c) THEN      \* begin to trim (only reachable with spaces = 0)
               /\ seenNL' = nl /\ spaces' = 1 /\ cbt' = lastChar /\ out' = flushed
               /\ UNCHANGED lastChar
            ELSE
-              /\ seenNL' = nl /\ spaces' = 0 /\ out' = flushed \o c /\ lastChar' = c
+              /\ seenNL' = nl /\ spaces' = 0 /\ out' = Append(flushed, c) /\ lastChar' = c
               /\ UNCHANGED cbt
 
 Next == \E c \in AlphaSet : Step(c)
@@ -250,19 +259,35 @@ SpacesInRange == spaces >= 0 /\ (~seenNL => spaces <= Len(inp))
 OutRunOk(o, s) ==
   LET ro == Runs(o) rs == Runs(s) IN
   \A i \in 1..Len(ro) :
-    ro[i].ws => \/ RunText(o, ro[i]) = SP
+    ro[i].ws => \/ RunText(o, ro[i]) = <<SP>>
                 \/ /\ ~HasLB(RunText(o, ro[i]))
                    /\ \E j \in 1..Len(rs) : rs[j].ws /\ RunText(s, rs[j]) = RunText(o, ro[i])
 
-ANonWs  == \A lc \in BOOLEAN, rc \in BOOLEAN : StripWs(Norm(inp, lc, rc)) = StripWs(inp)
-AShape  == \A lc \in BOOLEAN, rc \in BOOLEAN : OutRunOk(Norm(inp, lc, rc), inp)
-AVanish == (AllWs(inp) /\ HasLB(inp)) => RuleA(inp) = ""
-AIdem   == RuleA(RuleA(inp)) = RuleA(inp)
-AWeak   == /\ Acceptable(inp, FALSE, FALSE) = {RuleA(inp)}
-           /\ \A lc \in BOOLEAN, rc \in BOOLEAN :
-                /\ RuleA(inp) \in Acceptable(inp, lc, rc)         \* the comment is just a boundary
-                /\ Norm(inp, lc, rc) \in Acceptable(inp, lc, rc)  \* the pinned reading
-                /\ \A o \in Acceptable(inp, lc, rc) : StripWs(o) = StripWs(inp) /\ OutRunOk(o, inp)
+\* (each string is the `inp' of two states, tb = TRUE / FALSE; the properties
+\* of (A) alone are evaluated in the tb = FALSE state only)
+Ctx4 == {<<FALSE, FALSE>>, <<FALSE, TRUE>>, <<TRUE, FALSE>>, <<TRUE, TRUE>>}
+
+\* every non-whitespace character survives, in order
+ANonWs  == tb \/ LET core == StripWs(inp) IN \A c \in Ctx4 : StripWs(Norm(inp, c[1], c[2])) = core
+\* output whitespace is one space or a verbatim run without line break
+AShape  == tb \/ \A c \in Ctx4 : OutRunOk(Norm(inp, c[1], c[2]), inp)
+\* a text run that is only whitespace with a line break vanishes
+AVanish == tb \/ ((AllWs(inp) /\ HasLB(inp)) => RuleA(inp) = <<>>)
+\* normalising twice changes nothing more
+AIdem   == tb \/ LET o == RuleA(inp) IN RuleA(o) = o
+\* the weak obligation next to a comment: contains the exact rule and the pinned
+\* reading, grows with the number of comment neighbours, and every member
+\* keeps the non-whitespace characters and the shape of output whitespace
+AWeak   == tb \/
+  LET exact == RuleA(inp)
+      core  == StripWs(inp)
+      both  == Acceptable(inp, TRUE, TRUE) IN
+  /\ Acceptable(inp, FALSE, FALSE) = {exact}
+  /\ \A c \in Ctx4 : LET acc == Acceptable(inp, c[1], c[2]) IN
+        /\ exact \in acc                     \* reading: the comment is just a boundary
+        /\ Norm(inp, c[1], c[2]) \in acc      \* reading pinned by the tests
+        /\ acc \subseteq both
+  /\ \A o \in both : StripWs(o) = core /\ OutRunOk(o, inp)
 
 -----------------------------------------------------------------------------
 (* (C) Enumerators for M2: the machine started with tb = FALSE visits every *)
@@ -274,7 +299,30 @@ EnumInit == Init /\ tb = FALSE
 PrintText == PrintT(<<"T", inp, RuleA(inp), Acceptable(inp, TRUE, FALSE),
                       Acceptable(inp, FALSE, TRUE), Acceptable(inp, TRUE, TRUE)>>)
 
+\* comment family: the enumerated string is placed (1) directly after the
+\* template tag and (2) on a line of its own; a final line break keeps a line
+\* comment from swallowing the {/template} that follows the body.
 \* <<"K", body, "ok"|"err"|"unspec", number of comments, acceptable outputs>>
-PrintComment == LET b == AccBody(inp) IN PrintT(<<"K", inp, b.t, b.ncom, b.acc>>)
+PrintComment ==
+  LET b1 == Append(inp, LF)
+      b2 == <<LF>> \o inp \o <<LF>>
+      a1 == AccBody(b1)
+      a2 == AccBody(b2)
+  IN /\ PrintT(<<"K", b1, a1.t, a1.ncom, a1.acc>>)
+     /\ PrintT(<<"K", b2, a2.t, a2.ncom, a2.acc>>)
+
+\* Scan only cuts: the segments, concatenated, are the source; text segments
+\* are maximal (never adjacent, never empty); without "/" nothing is a comment
+RECURSIVE CatSegs(_, _)
+CatSegs(segs, i) == IF i > Len(segs) THEN <<>> ELSE segs[i].s \o CatSegs(segs, i + 1)
+ScanPartition ==
+  LET r == Scan(inp) IN
+  r.t = "ok" =>
+    /\ CatSegs(r.segs, 1) = inp
+    /\ \A i \in 1..Len(r.segs) : r.segs[i].s # <<>>
+    /\ \A i \in 1..(Len(r.segs) - 1) : ~(r.segs[i].k = "text" /\ r.segs[i + 1].k = "text")
+    /\ ((\A i \in 1..Len(inp) : inp[i] # "/") => Len(r.segs) <= 1)
+    /\ \A o \in AccSegs(r.segs, 1) :
+         StripWs(o) = StripWs(CatSegs(SelectSeq(r.segs, LAMBDA g : g.k = "text"), 1))
 
 =============================================================================
